@@ -4,10 +4,12 @@ from props.workercommon import *
 from props.c01 import C01, worker_check
 
 
-def monitors_c02(case, seq, batches, filt, sent, mb):
+def monitors_c02(case, seq, batches, filt, sent, mb, sets=()):
     out = []
     evs = {e["id"]: e for e in case["events"]}
     th = case["throttle_ms"] * 1000
+    if sets:
+        return monitors_runtime(case, seq, batches, evs, th, sets)
     R = dict((i, t) for t, i in seq)
     prev_end = 0
     for k, (ts, ids, te) in enumerate(batches):
@@ -27,6 +29,27 @@ def monitors_c02(case, seq, batches, filt, sent, mb):
         if th == 0 and len(ids) != 1:
             out.append(("C02_zero_throttle: several events in one batch with a zero throttle", ids))
         prev_end = te or ts
+    return out
+
+
+def monitors_runtime(case, seq, batches, evs, th0, sets):
+    """throttle changed at run time: a batch without an urgent event is delivered no earlier than first + the throttle in force
+    at the moment of delivery (decided when no change is within the ambiguity margin of the delivery)"""
+    out = []
+    R = dict((i, t) for t, i in seq)
+    for ts, ids, te in batches:
+        if not ids or any(evs[i].get("prio") == "urgent" for i in ids):
+            continue
+        first = R.get(ids[0], 0)
+        if any(abs(T - ts) < MARGIN_US for T, _ in sets):
+            continue
+        cur = th0
+        for T, v in sets:
+            if T <= ts:
+                cur = v
+        if ts + 50 < first + cur:
+            out.append(("C02_lower_bound_runtime: batch delivered before the throttle in force had elapsed since its first event",
+                        {"first_received_us": first, "delivered_us": ts, "throttle_in_force_us": cur, "changes": list(sets), "ids": ids}))
     return out
 
 
